@@ -1005,6 +1005,9 @@ def scratch_path(name, scratch=None):
     return os.path.join(scratch or scratch_dir(), name)
 
 
+EXTRA_ROUTES = [False]       # set by the driver for the properties that own them (C02 / C03): costs two more listings
+
+
 def x_dump_file(data=None, path=None, want_dis=True, max_code=None, route="load_module",
                 dup_lines=False):
     """Everything xdis decodes from one bytecode file, canonically."""
@@ -1054,7 +1057,7 @@ def x_dump_file(data=None, path=None, want_dis=True, max_code=None, route="load_
                 except Exception as e:
                     d["instrs_gi"] = {"err": "%s: %s" % (type(e).__name__, e)}
         # the fourth: the list Bytecode.disassemble_bytes() RETURNS (what xasm-style tools post-process), per format
-        if tuple(version) >= (2, 1):
+        if tuple(version) >= (2, 1) and EXTRA_ROUTES[0]:
             import io as _io
             cmp_op = list(getattr(opc, "cmp_op", ()))
             for c, d in zip(codes, r["dis"]):
@@ -1374,7 +1377,12 @@ def op_x_c07(req):
     r = x_dump_file(data=data, path=path if req["route"] in ("load_module", "native2portable") else None, want_dis=True,
                     max_code=req.get("max_code"), route=req["route"], dup_lines=True)
     out = {"tree": r["tree"], "dis": r["dis"], "native": r["native"], "header": r["header"]}
-    if req.get("listing"):
+    big = max([c.get("skipped", 0) for c in r["dis"]] or [0])
+    if req.get("listing") and big > 3 * (req.get("max_code") or 10 ** 9):
+        # xdis lists a code object in time quadratic in its size (a 22 KB module body takes four minutes): the listing of
+        # such a file is skipped on every host alike
+        out["listing"] = "LISTING SKIPPED: code object of %d bytes" % big
+    elif req.get("listing"):
         import io
         buf = io.StringIO()
         try:
